@@ -39,6 +39,8 @@ def replay(req):
         return identity_cases(req)
     if req.get('property') == 'C13':
         return comparison_cases(req)
+    if req.get('property') == 'C06':
+        return version_cases(req)
     if req.get('property') == 'C05':
         return effectiveness_cases(req)
     if func.startswith('simple_operation_executor.') and req.get('property') in ('C04', None):
@@ -300,10 +302,23 @@ def fence_cases(req):
             held['sub_raised'] = b
             raise ValueError('x')
 
+        def sub_args(b, *a, **k):
+            held['sub_with_args'] = b
+            return 2
+
+        def mkfile_args(b, filename, *a, **k):
+            held['file_with_args'] = b
+            write(filename, 'y')
+
         def rootf(b):
             held['root'] = b
             b.subbuild('sub', sub)
             b.build_file(os.path.join(root, 'o.txt'), 'mk', mkfile)
+            # records with non-string arguments of every JSON kind (the fence builds its message
+            # from the record)
+            b.subbuild('sub_args', sub_args, 7, [1, 'a'], {'k': None}, 1.5, True, None, key=[2])
+            b.build_file(os.path.join(root, 'o2.txt'), 'mk_args', mkfile_args, 7, [1], None,
+                         key={'a': 1})
             try:
                 b.subbuild('sub_raises', sub_raises)
             except ValueError:
@@ -895,6 +910,62 @@ def rollback_cases(req):
         shutil.rmtree(root, ignore_errors=True)
     if first is not None:
         return first
+    # 6. the root function returns, the previous build had an output this build no longer makes,
+    #    and the cache write fails (at the open, or at the write): nothing may have been committed
+    import gzip as _gz
+    for fail_at in ('open', 'write'):
+        root = scratch()
+        real_open = _gz.open
+        try:
+            n += 1
+            cache = os.path.join(root, 'c.gz')
+            FileBuilder.build(cache, 'n', lambda b: (
+                b.build_file(os.path.join(root, 'o', 'a.txt'), 'mk', mk),
+                b.build_file(os.path.join(root, 'old', 'stale.txt'), 'mk', mk))[0])
+            before = snapshot(root)
+
+            class FailingW:
+                def __init__(self, f):
+                    self.f = f
+
+                def __enter__(self):
+                    return self
+
+                def __exit__(self, *a):
+                    self.f.close()
+
+                def write(self, data):
+                    raise OSError(28, 'No space left on device (injected)')
+
+            def bad_open(filename, mode='rb', *a, **k):
+                if 'w' in mode and fail_at == 'open':
+                    raise OSError(13, 'Permission denied (injected)')
+                f = real_open(filename, mode, *a, **k)
+                return FailingW(f) if 'w' in mode else f
+            _gz.open = bad_open
+            try:
+                try:
+                    FileBuilder.build(cache, 'n', lambda b: b.build_file(
+                        os.path.join(root, 'o', 'a.txt'), 'mk', mk))
+                    raised = None
+                except OSError as e:
+                    raised = e
+            finally:
+                _gz.open = real_open
+            after = snapshot(root)
+            fb, fa = files_only(before), files_only(after)
+            if raised is not None:
+                for p_ in sorted(set(fb) | set(fa)):
+                    if p_ not in fa or p_ not in fb or fb[p_][1:3] != fa[p_][1:3]:
+                        return {'reproduced': True,
+                                'check': 'a failed cache write (%s) does not leave the pre-build '
+                                         'state' % fail_at,
+                                'input': 'build 1: o/a.txt + old/stale.txt; build 2: o/a.txt only; '
+                                         'gzip %s raises' % fail_at,
+                                'observed': os.path.relpath(p_, root), 'evaluations': n}
+        finally:
+            _gz.open = real_open
+            shutil.rmtree(root, ignore_errors=True)
     return {'reproduced': False, 'evaluations': n}
 
 
@@ -1194,4 +1265,87 @@ def transparency_cases(req):
                     finally:
                         for r in roots:
                             shutil.rmtree(r, ignore_errors=True)
+    return {'reproduced': False, 'evaluations': n}
+
+
+# -------------------------------------------------------------------------------------------------
+def version_cases(req):
+    """C06: two builds whose version maps differ in one entry (or not at all).  A function is
+    re-executed in the second build exactly when its own version, or the version of a function it
+    (transitively) called, is not JSON-equal to the recorded one; a name absent from the map has
+    version None; True != 1, 1 == 1.0, dict key order is irrelevant.  Also compared with a
+    from-scratch build of the second configuration (return value and output bytes)."""
+    from file_builder import FileBuilder
+    from replay_json import ref_jeq
+    ABSENT = object()
+    vals = [ABSENT, None, 0, False, 1, True, 1.0, '', '1', [0, 1], [False, True], {'a': 1, 'b': 2},
+            {'b': 2, 'a': 1}, {'a': 1, 'b': 2.0}, 2, [1], [[1]], {}]
+    n = 0
+
+    def val(v):
+        return None if v is ABSENT else v
+
+    def vmap(name, v):
+        return {} if v is ABSENT else {name: v}
+
+    for name in ('leaf', 'mk', 'top', 'other'):
+        for v1 in vals:
+            for v2 in vals:
+                n += 1
+                root = scratch()
+                ref = scratch()
+                try:
+                    log = []
+
+                    def make(base):
+                        def leaf(b, k):
+                            log.append('leaf')
+                            return k * 7
+
+                        def mk(b, filename, text):
+                            log.append('mk')
+                            write(filename, text)
+                            return len(text)
+
+                        def other(b):
+                            log.append('other')
+                            return 'o'
+
+                        def top(b):
+                            log.append('top')
+                            x = b.subbuild('leaf', leaf, 3)
+                            y = b.build_file(os.path.join(base, 'out', 'f.txt'), 'mk', mk,
+                                             'v%d' % x)
+                            return [x, y]
+
+                        def prog(b):
+                            return [b.subbuild('top', top), b.subbuild('other', other)]
+                        return prog
+                    cache = os.path.join(root, 'c.gz')
+                    FileBuilder.build_versioned(cache, 'n', vmap(name, v1), make(root))
+                    del log[:]
+                    r2 = FileBuilder.build_versioned(cache, 'n', vmap(name, v2), make(root))
+                    ran = sorted(set(log))
+                    same = ref_jeq(val(v1), val(v2))
+                    if same:
+                        expect = []
+                    else:
+                        expect = {'leaf': ['leaf', 'top'], 'mk': ['mk', 'top'], 'top': ['top'],
+                                  'other': ['other']}[name]
+                    del log[:]
+                    r_ref = FileBuilder.build_versioned(os.path.join(ref, 'c.gz'), 'n',
+                                                        vmap(name, v2), make(ref))
+                    if ran != sorted(expect) or r2 != r_ref:
+                        return {'reproduced': True,
+                                'check': 'version change of %r from %r to %r: re-executed %r, '
+                                         'expected %r' % (name, 'absent' if v1 is ABSENT else v1,
+                                                          'absent' if v2 is ABSENT else v2, ran,
+                                                          sorted(expect)),
+                                'input': 'build_versioned twice with versions %r then %r'
+                                         % (vmap(name, v1), vmap(name, v2)),
+                                'observed': {'ran': ran, 'result': repr(r2), 'scratch': repr(r_ref)},
+                                'evaluations': n}
+                finally:
+                    shutil.rmtree(root, ignore_errors=True)
+                    shutil.rmtree(ref, ignore_errors=True)
     return {'reproduced': False, 'evaluations': n}
